@@ -170,6 +170,11 @@ func (g *generator) object(depth int, self pdf.Reference) pdf.Object {
 
 // write builds one document.  bodies[i] != nil makes object i a stream with that body.
 func (g *generator) write(v pdf.Version, hr bool, vals []pdf.Object, bodies [][]byte) *doc {
+	return g.writeRaw(v, hr, vals, bodies, true)
+}
+
+// directLengths: give bodies that only /Length can delimit a direct /Length
+func (g *generator) writeRaw(v pdf.Version, hr bool, vals []pdf.Object, bodies [][]byte, directLengths bool) *doc {
 	buf := &bytes.Buffer{}
 	w, err := pdf.NewWriter(buf, v, &pdf.WriterOptions{HumanReadable: hr})
 	if err != nil {
@@ -181,7 +186,7 @@ func (g *generator) write(v pdf.Version, hr bool, vals []pdf.Object, bodies [][]
 		rc := &rec{ref: ref}
 		if bodies[i] != nil {
 			dict := pdf.Dict{"K": pdf.Integer(i)}
-			if needsDirectLength(bodies[i]) {
+			if directLengths && needsDirectLength(bodies[i]) {
 				dict["Length"] = pdf.Integer(len(bodies[i]))
 			}
 			ws, err := w.OpenStream(ref, dict)
@@ -215,7 +220,7 @@ func (g *generator) write(v pdf.Version, hr bool, vals []pdf.Object, bodies [][]
 		panic(err)
 	}
 	d.data = buf.Bytes()
-	for _, rc := range d.recs {
+	for ri, rc := range d.recs {
 		hdr := []byte(fmt.Sprintf("\n%d %d obj", rc.ref.Number(), rc.ref.Generation()))
 		i := bytes.Index(d.data, hdr)
 		if i < 0 {
@@ -224,11 +229,16 @@ func (g *generator) write(v pdf.Version, hr bool, vals []pdf.Object, bodies [][]
 		rc.start = i + 1
 		// the end: generated text never has "endobj" at the beginning of a line, so the first
 		// line-initial endobj after the header closes the object (independent of the scanner)
-		j := bytes.Index(d.data[rc.start:], []byte("\nendobj"))
+		// (for a stream: the first one after its body, which may itself contain such a line)
+		after := rc.start
+		if bi := bytes.Index(d.data[rc.start:], bodies[ri]); bodies[ri] != nil && bi >= 0 {
+			after = rc.start + bi + len(bodies[ri])
+		}
+		j := bytes.Index(d.data[after:], []byte("\nendobj"))
 		if j < 0 {
 			panic("endobj not found")
 		}
-		rc.end = rc.start + j + 7
+		rc.end = after + j + 7
 		if m := indirectLength.FindSubmatch(d.data[rc.start:rc.end]); m != nil {
 			hdr := []byte(fmt.Sprintf("\n%s 0 obj", m[1]))
 			if j := bytes.Index(d.data, hdr); j >= 0 {
@@ -298,6 +308,31 @@ func (g *generator) sweepDoc(n int) *doc {
 	vals := []pdf.Object{pdf.String("first"), nil, pdf.Name("Third")}
 	d := g.write(pdf.V1_4, n%2 == 0, vals, [][]byte{nil, body, nil})
 	d.class = "length-sweep"
+	return d
+}
+
+// manyStreamsDoc: k streams of about 1100 bytes whose /Length the Writer puts into a later
+// object; stream j has lines that begin with endstream / endobj
+func (g *generator) manyStreamsDoc(k, j int) *doc {
+	vals := make([]pdf.Object, k)
+	bodies := make([][]byte, k)
+	for i := range bodies {
+		b := g.text(1100 + 3*i)
+		if n := len(b); b[n-1] == '\n' || b[n-1] == '\r' {
+			b[n-1] = 'z'
+		}
+		if i == j && j%3 != 2 {
+			// a line "endstream" that is NOT followed by endobj
+			copy(b[200:], "\nendstream\nq zz\nendstream x\nq ")
+			copy(b[700:], "\rendstream\r\nq ")
+		} else if i == j {
+			// ... and one that is
+			copy(b[200:], "\nendstream\nendobj\nq ")
+		}
+		bodies[i] = b
+	}
+	d := g.writeRaw(pdf.V1_4, j%2 == 0, vals, bodies, false)
+	d.class = fmt.Sprintf("many-streams k=%d", k)
 	return d
 }
 
@@ -796,6 +831,21 @@ func main() {
 	// the same family under the enumeration of all cuts
 	for _, n := range []int{1024 + 977, 1024 + 1500}[:e.Pick(1, 2)] {
 		t.allCuts(g.sweepDoc(n))
+	}
+
+	// many streams with an indirect /Length (>= 1024 bytes each, sink that cannot seek), one of
+	// them with hostile lines (`endstream`, `endobj` at the beginning of a line): only the
+	// resolved /Length delimits it.  The full file and cuts where its length object is present.
+	for _, k := range []int{14, 40}[:e.Pick(1, 2)] {
+		for j := 0; j < k; j++ {
+			d := g.manyStreamsDoc(k, j)
+			rc := d.recs[j]
+			if rc.lenEnd == 0 {
+				panic("stream without an indirect /Length")
+			}
+			n := len(d.data)
+			t.allCutsSparse(d, []int{n, n - 1, n - 30, rc.lenEnd, rc.lenEnd + 1, rc.start - 1, rc.start + 20})
+		}
 	}
 
 	// incremental updates (hand-written after a Writer document): which trailer MakeReader uses
